@@ -204,7 +204,7 @@ func (e *Engine) verifyFunc(fn *ssa.Function, fc *FuncContract, safety bool, dev
 		fr.appendAliasObligations(allProps(fc))
 		// "#*" site clauses must bind to at least one statement
 		for _, a := range fc.Asserts {
-			if a.Occ != -1 || a.E == nil {
+			if a.Occ != -1 || a.E == nil || a.Optional {
 				continue
 			}
 			found := false
